@@ -400,7 +400,9 @@ def r6(ctx, cfg):
         params = {x[2] for x in lv if x[0] == "param"}
         ctx.ob(R, key, "depends-only-on(api,code_id,instance_id)", params <= {"api", "code_id", "instance_id"} and {"code_id", "instance_id"} <= params,
                "classic address depends on %s" % sorted(params), fn=f, sample=str(sorted(params)))
-    key = "addresses::instantiate_address"
+    # (the private helper instantiate_address is always spliced into the default method - vlib/inline.py ALWAYS_INLINE - so that it
+    # does not matter whether the hashing lives in a helper or in the method itself)
+    key = "addresses::AddressGenerator::contract_address"
     f = ctx.need_fn(R, key)
     if f is not None:
         # key = b"wasm\0" ++ code_id.to_be_bytes() ++ instance_id.to_be_bytes()
@@ -410,7 +412,8 @@ def r6(ctx, cfg):
         # the key is what is fed last into the hash: Sha256::new().chain(module).chain(KEY)
         # the key is what is fed last into the hash: `Sha256::new().chain(module).chain(KEY)` or `hasher.update(module);
         # hasher.update(KEY)` - the feeding calls in execution order
-        feeds = [(b0, t0) for b0, t0 in f.calls() if t0["callee"]["name"] in ("chain", "chain_update", "update") and len(t0["args"]) == 2]
+        feeds = [(b0, t0) for b0, t0 in f.calls() if t0["callee"]["name"] in ("chain", "chain_update", "update") and len(t0["args"]) == 2 and
+                 not t0["callee"]["key"].startswith("std::iter::")]      # (the hasher's chain / update, not Iterator::chain)
         cf0 = cfg_of(f)
         rank0 = {id(x): sum(1 for y in feeds if y is not x and cf0.dominates(y[0], x[0])) for x in feeds}
         feeds.sort(key=lambda x: rank0[id(x)])
